@@ -1157,7 +1157,7 @@ theorem loadBinaryCall_eq {α : Type} (m : Meta) (files : List (DataFile α)) (m
     (hdiv : ∀ t im, (divide t im).times = im.times) :
     loadBinaryCall m files (some ms) divide o
       = (loadBinary m files (some ms) o.methodsV).map
-          (fun im => retOf o.fullV (if o.cpsV then divide ms im else im)) := by
+          (fun im => retOf binTimeName o.drop o.fullV (if o.cpsV then divide ms im else im)) := by
   unfold loadBinaryCall retOf
   cases loadBinary m files (some ms) o.methodsV with
   | error e => rfl
@@ -1169,7 +1169,7 @@ theorem loadBinaryCall_eq {α : Type} (m : Meta) (files : List (DataFile α)) (m
 the return shape `full` asks for. -/
 theorem loadCsvCall_eq {α : Type} (m : Meta) (files : List (DataFile α)) (acq : Option (List Name)) (o : CallOpts) :
     loadCsvCall m files acq o
-      = (loadCsv m files (if o.useAcqV then acq else none) o.methodsV).map (retOf o.fullV) := by
+      = (loadCsv m files (if o.useAcqV then acq else none) o.methodsV).map (retOf timeName o.drop o.fullV) := by
   unfold loadCsvCall retOf
   cases loadCsv m files (if o.useAcqV then acq else none) o.methodsV with
   | error e => rfl
@@ -1198,9 +1198,10 @@ theorem load_image_indep_of_full (m : Meta) (files : List (DataFile Rat)) (masse
 
 /-- Counts per second with any `full`: when `load_binary(..., counts_per_second=True, full=...)`
 returns, every pixel of element `j` is the stacked value divided by the accumulation time of the
-`j`-th mass, the names are those of the mass table, and the params are the times exactly when `full`. -/
+`j`-th mass, the names are those of the mass table, and the params are the times exactly when `full`
+(`drop_names` omitted; `call_drop_cps_pixel` below is the statement for a given `drop_names`). -/
 theorem call_cps_pixel (m : Meta) (files : List (DataFile Rat)) (ms : List MassInfo) (o : CallOpts) (r : Returned Rat)
-    (h : loadBinaryCall m files (some ms) cps o = .ok r) (hc : o.cpsV = true) :
+    (h : loadBinaryCall m files (some ms) cps o = .ok r) (hc : o.cpsV = true) (hd : o.drop = none) :
     ∃ im, loadBinary m files (some ms) o.methodsV = .ok im ∧ r.names = im.names ∧
       r.params = (if o.fullV then some im.times else none) ∧
       ∀ (i j s : Nat) (x : MassInfo), ms[j]? = some x → px r.img i j s = (px im.img i j s).map (· / x.acctime) := by
@@ -1209,7 +1210,7 @@ theorem call_cps_pixel (m : Meta) (files : List (DataFile Rat)) (ms : List MassI
   | error e => rw [hl] at h; simp [Except.map] at h
   | ok im =>
     rw [hl] at h
-    simp only [Except.map, hc, if_true, Except.ok.injEq] at h
+    simp only [Except.map, hc, if_true, Except.ok.injEq, hd] at h
     subst h
     refine ⟨im, rfl, rfl, rfl, ?_⟩
     intro i j s x hx
@@ -1225,9 +1226,9 @@ example : ∃ r, loadBinaryCall exMeta exFilesQ (some [⟨1, "P".toList, 1/2, 31
       { methods := some [.batchXml], cps := some true, useAcq := none, full := none } = .ok r ∧ r.params = none :=
   ⟨_, rfl, rfl⟩
 
-example : (⟨none, none, none, none⟩ : CallOpts).methodsV = [.batchXml, .batchCsv] ∧
-    (⟨none, none, none, none⟩ : CallOpts).cpsV = false ∧ (⟨none, none, none, none⟩ : CallOpts).useAcqV = true ∧
-    (⟨none, none, none, none⟩ : CallOpts).fullV = false := ⟨rfl, rfl, rfl, rfl⟩
+example : (⟨none, none, none, none, none⟩ : CallOpts).methodsV = [.batchXml, .batchCsv] ∧
+    (⟨none, none, none, none, none⟩ : CallOpts).cpsV = false ∧ (⟨none, none, none, none, none⟩ : CallOpts).useAcqV = true ∧
+    (⟨none, none, none, none, none⟩ : CallOpts).fullV = false := ⟨rfl, rfl, rfl, rfl⟩
 
 /-! ## composed theorems: the entry points against their specifications, `load`, listing order, binary-vs-CSV agreement of the two imports, histories -/
 
@@ -1703,5 +1704,125 @@ example : (callOn (γ := Nat) id (fun _ => 0) (fun _ im => im) (memoDisk "Eu".to
 example : (⟨[⟨"10.d".toList, true⟩, ⟨"9.d".toList, true⟩], none, none, none⟩ : Meta).SameUpToListing
     ⟨[⟨"9.d".toList, true⟩, ⟨"10.d".toList, true⟩], none, none, none⟩ :=
   ⟨List.Perm.swap _ _ _, rfl, rfl, rfl⟩
+
+/-! ## `drop_names` -/
+
+/-- `drop_fields` on the fields of a line: the `j'`-th kept name is a name `n` not listed in `d`, standing at some
+position `j` of the original names, and in EVERY line the `j'`-th kept column is the column that stood at `j` -/
+theorem dropLine_getElem (d : List Name) (names : List Name)
+    (j' : Nat) (n : Name) (h : (names.filter (fun n => !d.contains n))[j']? = some n) :
+    ∃ j : Nat, names[j]? = some n ∧ d.contains n = false ∧
+      ∀ {β : Type} (line : List β), line.length = names.length →
+        (((names.zip line).filter (fun p => !d.contains p.1)).map (·.2))[j']? = line[j]? := by
+  induction names generalizing j' with
+  | nil => simp at h
+  | cons a rest ih =>
+    by_cases hm : a ∈ d
+    · have h' : (rest.filter (fun n => !d.contains n))[j']? = some n := by simpa [List.filter_cons, hm] using h
+      obtain ⟨j, h1, h2, h3⟩ := ih j' h'
+      refine ⟨j + 1, by simpa using h1, h2, ?_⟩
+      intro β line hlen
+      cases line with
+      | nil => simp at hlen
+      | cons x xs =>
+        have hl : xs.length = rest.length := by simpa using hlen
+        simpa [List.zip_cons_cons, List.filter_cons, hm] using h3 xs hl
+    · cases j' with
+      | zero =>
+        have : a = n := by simpa [List.filter_cons, hm] using h
+        subst this
+        refine ⟨0, rfl, by simpa using hm, ?_⟩
+        intro β line hlen
+        cases line with
+        | nil => simp at hlen
+        | cons x xs => simp [List.zip_cons_cons, List.filter_cons, hm]
+      | succ j'' =>
+        have h' : (rest.filter (fun n => !d.contains n))[j'']? = some n := by simpa [List.filter_cons, hm] using h
+        obtain ⟨j, h1, h2, h3⟩ := ih j'' h'
+        refine ⟨j + 1, by simpa using h1, h2, ?_⟩
+        intro β line hlen
+        cases line with
+        | nil => simp at hlen
+        | cons x xs =>
+          have hl : xs.length = rest.length := by simpa using hlen
+          simpa [List.zip_cons_cons, List.filter_cons, hm] using h3 xs hl
+
+/-- What `drop_names = d` leaves of an image whose lines all have one column per name: the names not listed in `d`,
+in their order, and under each kept name the column that stood under THAT name, pixel by pixel; the times untouched -/
+theorem dropElems_pixel {β : Type} (d : List Name) (im : Image β) (hw : ∀ line ∈ im.img, line.length = im.names.length) :
+    (dropElems (some d) im).names = im.names.filter (fun n => !d.contains n) ∧
+    (dropElems (some d) im).times = im.times ∧
+    ∀ (j' : Nat) (n : Name), (dropElems (some d) im).names[j']? = some n →
+      ∃ j, im.names[j]? = some n ∧ d.contains n = false ∧
+        ∀ i s, px (dropElems (some d) im).img i j' s = px im.img i j s := by
+  refine ⟨rfl, rfl, ?_⟩
+  intro j' n h
+  obtain ⟨j, h1, h2, h3⟩ := dropLine_getElem d im.names j' n h
+  refine ⟨j, h1, h2, ?_⟩
+  intro i s
+  simp only [px, dropElems, List.getElem?_map]
+  cases hi : im.img[i]? with
+  | none => simp
+  | some line =>
+    simp only [Option.map_some, Option.bind_some, h3 line (hw line (List.mem_of_getElem? hi))]
+
+/-- `load_binary(..., counts_per_second=True, drop_names=d, full=...)`: the array returned holds the elements of the
+mass table whose names are not listed in `d`, in table order, and EVERY kept element — whatever was dropped in front of
+it — holds its stacked values divided by the accumulation time of ITS OWN mass (`ms[j]`, the mass of that name); the
+time field stays in the array iff `d` does not list it.  (The seeded change C02-d2 divided the `j'`-th kept field by
+the accumulation time of the `j'`-th mass.) -/
+theorem call_drop_cps_pixel (m : Meta) (files : List (DataFile Rat)) (ms : List MassInfo) (o : CallOpts) (r : Returned Rat)
+    (d : List Name) (R k : Nat)
+    (hids : ms.map (·.id) = List.range' 1 k)
+    (hfiles : ∀ f ∈ files, f.hasBinary = true ∧ ∃ bc, Layout R k bc f.scans f.profile)
+    (hlines : linesOf m false o.methodsV = linesOf m true o.methodsV)
+    (h : loadBinaryCall m files (some ms) cps o = .ok r) (hc : o.cpsV = true) (hd : o.drop = some d) :
+    ∃ im, loadBinary m files (some ms) o.methodsV = .ok im ∧
+      r.names = (ms.map (·.str)).filter (fun n => !d.contains n) ∧
+      r.timeField = (if d.contains binTimeName then none else some im.times) ∧
+      ∀ (j' : Nat) (n : Name), r.names[j']? = some n →
+        ∃ j x, ms[j]? = some x ∧ x.str = n ∧ d.contains n = false ∧
+          ∀ i s, px r.img i j' s = (px im.img i j s).map (· / x.acctime) := by
+  rw [loadBinaryCall_eq m files ms cps o (fun _ _ => rfl)] at h
+  cases hl : loadBinary m files (some ms) o.methodsV with
+  | error e => rw [hl] at h; simp [Except.map] at h
+  | ok im =>
+    rw [hl] at h
+    simp only [Except.map, hc, if_true, Except.ok.injEq, hd] at h
+    subst h
+    obtain ⟨lines, _, hnames, _, _, _⟩ := binary_import_pointwise m files ms o.methodsV R k hids hfiles hlines im hl
+    have hk : ms.length = k := by
+      have := congrArg List.length hids
+      simpa using this
+    have hshape := binary_import_shape m files ms o.methodsV R k hids hfiles hlines im hl
+    have hw : ∀ line ∈ (cps ms im).img, line.length = (cps ms im).names.length := by
+      intro line hline
+      simp only [cps, List.mem_map] at hline
+      obtain ⟨l0, hl0, rfl⟩ := hline
+      simp [cps, hnames, (hshape l0 hl0).1, hk]
+    obtain ⟨e1, _, e3⟩ := dropElems_pixel d (cps ms im) hw
+    refine ⟨im, rfl, ?_, rfl, ?_⟩
+    · simp only [retOf, e1]
+      simp [cps, hnames]
+    · intro j' n hn
+      obtain ⟨j, g1, g2, g3⟩ := e3 j' n hn
+      have g1' : (ms.map (·.str))[j]? = some n := by simpa [cps, hnames] using g1
+      rw [List.getElem?_map] at g1'
+      cases hx : ms[j]? with
+      | none => rw [hx] at g1'; simp at g1'
+      | some x =>
+        rw [hx] at g1'
+        simp only [Option.map_some, Option.some.injEq] at g1'
+        refine ⟨j, x, hx, g1', g2, ?_⟩
+        intro i s
+        show px (dropElems (some d) (cps ms im)).img i j' s = _
+        rw [g3 i s]
+        exact (cps_pixel ms im i j s x hx).1
+
+/-- non-vacuity: `exFilesQ`, counts per second, the FIRST element dropped, the time field kept: the second element
+is divided by its own accumulation time (1/4), not by the first one's (1/2) -/
+example : (loadBinaryCall exMeta exFilesQ (some [⟨1, "P".toList, 1/2, 31, none⟩, ⟨2, "Eu".toList, 1/4, 153, none⟩]) cps
+      { methods := some [.batchXml], cps := some true, useAcq := none, full := none, drop := some ["P31".toList] }).toOption.map
+      (fun r => (r.names, r.timeField.isSome)) = some (["Eu153".toList], true) := by decide
 
 end Pew.Agilent
